@@ -109,9 +109,13 @@ class MaskedAutoregressive(AbstractBijection):
         y, rank = init
         nn_input = y if condition is None else jnp.hstack((y, condition))
         transformer_params = self.masked_autoregressive_mlp(nn_input)
-        transformer = self._flat_params_to_transformer(transformer_params)
-        x = transformer.inverse(y)
-        x = y.at[rank].set(x[rank])
+        # Only element ``rank`` is determined at this step. Invert that element alone:
+        # the transformer parameters of the later elements are not yet meaningful, and
+        # inverting with them can overflow, which gives nan gradients (0 * inf) even
+        # though the values are discarded.
+        params_rank = jnp.reshape(transformer_params, (self.shape[-1], -1))[rank]
+        x_rank = self.transformer_constructor(params_rank).inverse(y[rank])
+        x = y.at[rank].set(x_rank)
         return (x, rank + 1), None
 
     def inverse_and_log_det(self, y, condition=None):
